@@ -264,7 +264,7 @@ func checkC06(p *Prog, r *Report) {
 	r.Rule("R12", "RemoveEntityByAddress drops exactly the entity it hands back to the cascade: the rebuild of the peer's entity list keeps an entry ⇔ it is not the entity found for the address (an entry dropped on the side — a sub-entity, a prefix match — never gets its subscriptions, bindings and caches cleaned)")
 	applyRetain(p, r, "R12", "spine", "DeviceRemote", "RemoveEntityByAddress", retainSpec{Field: F("DeviceRemote.entities"), Required: map[string]string{"entity": "=$"}})
 	r.Rule("R8", "a list field whose slice header a getter hands out (callers iterate it without the lock) is never modified in place: no element store, no copy into it, no in-place library routine (slices.DeleteFunc, sort.Slice, …); removal builds a new slice")
-	escapedListsImmutable(p, BuildLockset(p, "spine", "model"), r, "R8", map[string]bool{"DeviceRemote": true, "EntityRemote": true})
+	escapedListsImmutable(p, BuildLockset(p, "spine", "model"), r, "R8", map[string]bool{"DeviceRemote": true, "EntityRemote": true, "events": true})
 	r.Rule("R7", "every hand-written element-wise comparison of two slices of one type compares their lengths for equality: entity addresses are never matched by prefix (shared lint, C20-R6)")
 	sliceEqualityHelpers(p, r, "R7")
 	r.Rule("R6", "the per-entity clean-ups called by the cascade remove that entity's entries and nothing else: keep ⇔ ¬(client device ∧ client entity equal) (retain truth tables, shared with C10-R1)")
@@ -800,10 +800,12 @@ func reannounceRules(p *Prog, r *Report, eri *types.Interface, ruleW, ruleA stri
 				// a guard "the look-up of the entity missed" (taken edge: nil) confines the update to new entities
 				var bad []string
 				for _, g := range Guards(u.Block()) {
-					x, trueNil, isNil := nilTest(g.Cond)
-					if !isNil || trueNil != g.Val {
+					x, _, isNil := nilTest(g.Cond)
+					if !isNil {
 						continue
 					}
+					// either branch of "was the entity known?": confined to new entities the pre-discovery entity never gets
+					// the address; confined to known ones, new entities depend on the order of other calls for theirs
 					if lc, isCall := unwrapIface(x).(*ssa.Call); isCall && implementsIface(lc.Type(), eri) {
 						bad = append(bad, fmt.Sprintf("%s == nil at %s", Path(x), p.InstrPos(g.If)))
 					}
@@ -811,7 +813,7 @@ func reannounceRules(p *Prog, r *Report, eri *types.Interface, ruleW, ruleA stri
 						bad = append(bad, fmt.Sprintf("%s == nil at %s", Path(x), p.InstrPos(g.If)))
 					}
 				}
-				r.Check(ruleA, fmt.Sprintf("%s|device-address#%d", FnName(fn), i+1), len(bad) == 0, p.InstrPos(u), fmt.Sprintf("the update is reached only when the entity was not known before: %v", bad))
+				r.Check(ruleA, fmt.Sprintf("%s|device-address#%d", FnName(fn), i+1), len(bad) == 0, p.InstrPos(u), fmt.Sprintf("the update depends on whether the entity was known before: %v", bad))
 			}
 		})
 	}
